@@ -601,7 +601,7 @@ func init() {
 				// (bound 3 does not finish within the thorough budget: 2/1 is what is completed)
 				us = append(us, c03SharedRace(d, bound))
 			}
-			us = append(us, c03BinaryMinBalance(), c03BinaryMinBalanceUnits())
+			us = append(us, c03BinaryMinBalance(), c03BinaryMinBalanceUnits(), binaryWithContract())
 			return us
 		},
 	})
